@@ -567,3 +567,15 @@ def _callers_outside(idx, tail, allowed):
     dup = [cs for cs in bad if cs.fn.name == "<module>" and id(cs.call) in real]
     n_dup = len([cs for cs in cg.calls_named(tail) if cs.fn.name == "<module>" and id(cs.call) in real])
     return [cs for cs in bad if cs not in dup], badrefs, total - n_dup
+
+
+# -- node cache cannot hand a writeable node to a read-cap holder (shared with C18) ---------------------
+# The gateway builds every node through NodeMaker.create_from_cap; if a node made from a write cap is cached
+# under its read cap, a request carrying only the read cap gets the writeable node and every gate above
+# (is_readonly -> NotWriteableError) answers for the wrong authority.
+_run_web_and_node_gates = run
+
+
+def run(ctx: Context):   # noqa: F811
+    _run_web_and_node_gates(ctx)
+    ctx.include("C18", ["C18.5"], "C41.7")
